@@ -80,15 +80,6 @@ def _clip(dl, o, l):
     return end - o if end > o else 0
 
 
-def _same_bytes(a, b, p):
-    """two results of a read: same length and the same byte at the (universally quantified) probe position"""
-    if len(a) != len(b):
-        return False
-    if p < len(a):
-        return ProvBuf(a.runs).at(p) == ProvBuf(b.runs).at(p)
-    return True
-
-
 # ---- range reads of immutable shares ----------------------------------------------------------------------------------
 
 def _imm_state(dlen, nl, other):
@@ -112,15 +103,16 @@ def _imm_read(side_name, dlen, nl, other, shnum, off, ln):
 
 def h_read_immutable(dlen: int, nl: int, other: bool, off: int, ln: int, p: int) -> bool:
     """
-    pre: 0 <= dlen <= B["size_max"] and nl == B.get("nl", 1) and 0 <= off and B["ln_min"] <= ln <= B["ln_max"] and 0 <= p
-    pre: B.get("other") is None or other == (B["other"] == 1)
+    pre: 0 <= dlen <= B["size_max"] and 0 <= off and B["ln_min"] <= ln <= B["ln_max"] and 0 <= p
     post: _ == True
     """
     return X.guard(_h_read_immutable, dlen, nl, other, off, ln, p)
 
 
 def _h_read_immutable(dlen, nl, other, off, ln, p):
-    nl = _pin(nl, 0, 2)
+    nl = B.get("nl", 1)                            # number of leases behind the data (what a case does not vary is a plain value)
+    if B.get("other") is not None:
+        other = bool(B["other"])
     assume(("zero-length-read" if ln == 0 else "other") not in EXCLUDED)
     (nums_h, res_h, nops_h) = _imm_read("http", dlen, nl, other, 0, off, ln)
     (nums_d, res_d, nops_d) = _imm_read("direct", dlen, nl, other, 0, off, ln)
